@@ -63,7 +63,9 @@ def judge(ctx, g, prune, o, stopping):
             continue
         if len(set(vals)) >= 2 and S.players[s] == P2:
             nontriv = True
-        if not separated(vals, TOL) or any(near_rounding_boundary(v) for v in vals):
+        # values of an acyclic conditioned game are computed exactly (no residual-stop error): there only
+        # differences within two rounding units are left to the rounded comparison
+        if not separated(vals, 2 * THR if acyclic(S, s) else TOL) or any(near_rounding_boundary(v) for v in vals):
             ctx.count("skipped_close_values")
             continue
         if not row:
@@ -153,6 +155,10 @@ def run(ctx, model=None):
         check_case(ctx, gen.with_huge_rewards(gen.layered_tie_game(rng)), model)
         check_case(ctx, gen.with_empty_action(gen.layered_tie_game(rng), rng), model)
         check_case(ctx, gen.integer_game(rng), None)
+        check_case(ctx, gen.close_rewards_game(rng), model)
+        if k % 2 == 0:
+            check_case(ctx, gen.tiny_best_game(rng), model)
+            check_case(ctx, gen.big_slow_reward_game(rng), model, limit=60.0)
     N = 200 if ctx.quick() else 5000
     for k in range(N):
         r = k % 5
